@@ -232,6 +232,14 @@ def step (line : String) : String :=
         | some m => s!"model={m} holds={if monitorSize size impl then 1 else 0}"
         | none => "bad-op"
       | _, _, _, _ => "bad-args"
+    | ["c11k", t, _k, sa, ha, sb, hb] =>
+      -- A's response delivered in two pieces (split after _k bytes): the stream is the same, so are model and monitor
+      match ofHex t, parseInst sa ha, parseInst sb hb with
+      | some topic, some a, some b =>
+        match model topic a b, monitor a impl with
+        | some m, some h => s!"model={m} holds={if h then 1 else 0}"
+        | _, _ => "bad-op"
+      | _, _, _ => "bad-args"
     | ["c11", t, sa, ha, sb, hb] =>
       match ofHex t, parseInst sa ha, parseInst sb hb with
       | some topic, some a, some b =>
